@@ -556,6 +556,13 @@ func run04(c drv.Case, res *drv.Result) {
 		res.Stat("files_compared", int64(len(want)))
 	}
 	check("Publish", model0, func(dest string) error { return env.Publish(nil, "repo", id, coreh.LocalFS(dest), p.DownConc) })
+	// the same download with hash verification switched off (--verify-hash=false): another copy path inside cafs
+	check("Publish(verify-hash=false)", model0, func(dest string) error {
+		b := core.NewBundle(core.Repo("repo"), core.ContextStores(env.Stores(nil)), core.BundleID(id), core.Logger(coreh.Nop),
+			core.ConsumableStore(coreh.LocalFS(dest)), core.ConcurrentFileDownloads(p.DownConc), core.ConcurrentFilelistDownloads(p.DownConc),
+			core.BundleWithVerifyHash(false))
+		return core.Publish(context.Background(), b)
+	})
 
 	if p.Mode == "tree" {
 		// ---- filtered download
